@@ -292,9 +292,65 @@ func genCase(r *Rng, pl Plan, maxn int) PCase {
 			}
 		}
 	}
+	// a scalar operand of a container's method is a reference into the receiver's / an earlier operand's storage
+	// (r.VMULS(a, r.AT(k)), v.VDIVS(v, v.AT(0)), r.MADDS(a, a.AT(i, j))): 2 of 5 scalar slots
+	if pl.Kind != "scalar" {
+		for i, k := range pl.Args {
+			if k != "scalar" || r.Intn(5) > 1 {
+				continue
+			}
+			refElem(r, &c, i)
+		}
+	}
 	return c
 }
 func sameShape(a, b OSpec) bool { return a.Rows == b.Rows && a.Cols == b.Cols }
+func isContainer(k string) bool { return k == "dvec" || k == "svec" || k == "dmat" || k == "smat" }
+
+// refElem: make scalar argument i a reference to an element of the receiver (2 of 3) or of an earlier container
+// operand; on sparse owners stored entries are preferred (3 of 4), an absent one is created by At
+func refElem(r *Rng, c *PCase, i int) bool {
+	var owners []int
+	if isContainer(c.Recv.K) && len(c.Recv.E) > 0 {
+		owners = append(owners, 0, 0)
+	}
+	for j := 0; j < i; j++ {
+		if _, _, isE := c.elemRef(j); !isE && isContainer(c.Args[j].K) && len(c.ownerSpec(j+1).E) > 0 {
+			owners = append(owners, j+1)
+		}
+	}
+	if len(owners) == 0 {
+		return false
+	}
+	o := owners[r.Intn(len(owners))]
+	spec := c.ownerSpec(o)
+	e := r.Intn(len(spec.E))
+	if r.Intn(4) > 0 {
+		var stored []int
+		for k, x := range spec.E {
+			if x.P {
+				stored = append(stored, k)
+			}
+		}
+		if len(stored) > 0 {
+			e = stored[r.Intn(len(stored))]
+		}
+	}
+	setElemRef(c, i, o, e)
+	return true
+}
+func setElemRef(c *PCase, i, owner, e int) {
+	if c.Elem == nil {
+		c.Elem = make([]int, len(c.Args))
+		for j := range c.Elem {
+			c.Elem[j] = -1
+		}
+	}
+	c.Alias[i], c.Elem[i] = owner, e
+	el := c.ownerSpec(owner).E[e]
+	el.P = true
+	c.Args[i] = OSpec{K: "scalar", E: []ESpec{el}}
+}
 
 // ---------------------------------------------------------------- exhaustive small enumeration (hunt)
 
@@ -409,6 +465,22 @@ func exhaustive(pl Plan, maxn int, cap_ int, visit func(PCase) bool) {
 				if i > 0 && pl.Args[0] == k {
 					lists[i] = append(lists[i], OSpec{K: "alias1"})
 				}
+				// element references: the scalar operand is recv.At(e) / arg0.At(e)
+				if k == "scalar" && isContainer(pl.Kind) {
+					cnt := rr
+					if pl.Kind == "dmat" || pl.Kind == "smat" {
+						cnt = rr * rc
+					}
+					var refs []OSpec
+					for e := 0; e < cnt; e++ {
+						refs = append(refs, OSpec{K: "elem0", I: e})
+						if i > 0 && pl.Args[0] == pl.Kind {
+							refs = append(refs, OSpec{K: "elem1", I: e})
+						}
+					}
+					// references first: they are what the cap must not cut off
+					lists[i] = append(refs, lists[i]...)
+				}
 			}
 		}
 		idx := make([]int, len(pl.Args))
@@ -419,10 +491,22 @@ func exhaustive(pl Plan, maxn int, cap_ int, visit func(PCase) bool) {
 			for {
 				c := PCase{Type: pl.Type, Kind: pl.Kind, G: pl.P.G, C: pl.P.C, Recv: rv}
 				ok := true
+				type eref struct{ i, owner, e int }
+				var erefs []eref
 				for i := range pl.Args {
 					o := lists[i][idx[i]]
 					al := -1
 					switch o.K {
+					case "elem0", "elem1":
+						owner := 0
+						if o.K == "elem1" {
+							owner = 1
+							if c.Alias[0] == 0 {
+								ok = false // arg0 is the receiver: the same reference as elem0
+							}
+						}
+						erefs = append(erefs, eref{i, owner, o.I})
+						o = OSpec{K: "scalar", E: []ESpec{{P: true}}}
 					case "alias0":
 						al = 0
 						o = rv
@@ -438,6 +522,11 @@ func exhaustive(pl Plan, maxn int, cap_ int, visit func(PCase) bool) {
 					}
 					c.Args = append(c.Args, o)
 					c.Alias = append(c.Alias, al)
+				}
+				for _, er := range erefs {
+					if ok {
+						setElemRef(&c, er.i, er.owner, er.e)
+					}
 				}
 				if ok {
 					cnt++
@@ -472,6 +561,9 @@ func cloneCase(c PCase) PCase {
 		d.Args[i] = cloneObj(c.Args[i])
 	}
 	d.Alias = append([]int{}, c.Alias...)
+	if c.Elem != nil {
+		d.Elem = append([]int{}, c.Elem...)
+	}
 	return d
 }
 func cloneObj(o OSpec) OSpec {
@@ -508,7 +600,20 @@ func shrink(d Diff) Diff {
 		changed := false
 		// drop aliasing
 		for i := range d.Case.Alias {
-			if d.Case.Alias[i] >= 0 {
+			if owner, e, isE := d.Case.elemRef(i); isE {
+				// a scalar of its own with the element's value instead of the reference
+				c := cloneCase(d.Case)
+				el := c.ownerSpec(owner).E[e]
+				el.P = true
+				if !c.ownerSpec(owner).E[e].P {
+					el = ESpec{P: true}
+				}
+				c.Args[i] = cloneObj(OSpec{K: "scalar", E: []ESpec{el}})
+				c.Alias[i], c.Elem[i] = -1, -1
+				if nd, ok := keep(c); ok {
+					d, changed = nd, true
+				}
+			} else if d.Case.Alias[i] >= 0 {
 				c := cloneCase(d.Case)
 				if c.Alias[i] == 0 {
 					c.Args[i] = cloneObj(c.Recv)
